@@ -493,7 +493,8 @@ def run(rn, mod, hs, args, t_start):
     if n_w > 0 and not violations and not args.only:
         cands = [i for i, h in enumerate(hs) if results[i]["verdict"] == "pass" and h.sched and results[i]["covers"]
                  and h.desc.get("schedule") == "symbolic"]
-        cands = sorted(cands, key=lambda i: results[i]["wall"])[:n_w]
+        # playback runs are serial and cost about as much as the query itself: only the cheap ones
+        cands = [i for i in sorted(cands, key=lambda i: results[i]["wall"]) if results[i]["wall"] <= 300][:n_w]
         for i in cands:
             pb = rn.run_harness(hs[i], f"w{i}", playback=True)
             for vals in parse_playbacks(pb["log"])[:3]:
